@@ -9,6 +9,7 @@ from __future__ import annotations
 
 import contextlib
 import io
+import os
 import re
 import sys
 
@@ -116,21 +117,35 @@ def _calibrate():
     observing them across public operations whose effect is known."""
     if _CAL:
         return _CAL
+    if os.environ.get("VF_ADAPTER_FALLBACK") == "1":
+        # harness self-test: behave as if jaxtyping's internals were unreadable (public API only);
+        # every check must stay silent on the unchanged tree in this mode too
+        _CAL.update(depth=False, state=False)
+        FALLBACK["used"] = True
+        return _CAL
     ok_depth = ok_state = False
     try:
         from jaxtyping import Float, _storage
 
-        def depth():
-            return len(_storage._shape_storage.memo_stack) if hasattr(_storage._shape_storage, "memo_stack") else 0
+        with jaxtyped("context"):
+            with jaxtyped("context"):
+                pass
+            isinstance(Duck((2,)), Float[Duck, "vfcalibrate"])
+            memo = _storage.get_shape_memo()
+            ok_state = isinstance(memo, tuple) and len(memo) == 4 and memo[0] == {"vfcalibrate": 2} and all(isinstance(m, dict) for m in memo)
+    except Exception:
+        pass
+    try:
+        from jaxtyping import _storage
 
-        d0 = depth()
+        def depth():
+            return len(_storage._shape_storage.memo_stack)
+
+        d0 = depth() if hasattr(_storage._shape_storage, "memo_stack") else 0
         with jaxtyped("context"):
             d1 = depth()
             with jaxtyped("context"):
                 d2 = depth()
-            isinstance(Duck((2,)), Float[Duck, "vfcalibrate"])
-            memo = _storage.get_shape_memo()
-            ok_state = isinstance(memo, tuple) and len(memo) == 4 and memo[0] == {"vfcalibrate": 2}
         ok_depth = (d1 - d0, d2 - d0, depth() - d0) == (1, 2, 0)
     except Exception:
         pass
@@ -156,6 +171,8 @@ def stack_depth() -> int:
 
 def flags():
     """(treepath value, treeflatten flag) of the current thread."""
+    if os.environ.get("VF_ADAPTER_FALLBACK") == "1":
+        return (None, False)
     try:
         from jaxtyping import _storage
 
